@@ -70,6 +70,7 @@ def _fuzz_class(rng, tr, world, idl):
     from harness import c19_driver as D
     if tr != "ble":
         cls = {"kind": "mdns", "idc": rng.choice(["absent", "lower", "upper", "upper"]), "kc": rng.choice(["lower", "upper"]),
+               "av": rng.randrange(10),
                "addrs": [rng.choice(["v4", "v6", "ll4", "ll6", "un4", "un6"]) for _ in range(rng.randrange(0, 5))]}
         raw = {}
         for f in ("c", "s", "sf", "ff", "ci"):
@@ -259,7 +260,7 @@ def _random_schedule(args):
 
 
 # ------------------------------------------------------------------ trace validation
-_KEEP = ("ev", "t", "w", "g", "tr", "id", "tmo", "res", "cls", "obs", "raised")
+_KEEP = ("ev", "t", "w", "g", "tr", "id", "tmo", "res", "desc", "cls", "obs", "raised")
 
 
 def _dump(path, recs):
